@@ -38,15 +38,26 @@ class IntronCollector:
         # how introns were corrected after clustering
         self.intron_correction_map = {}
         self.discarded_introns = set()
+        # introns that follow / precede an intron in some read
+        self.adjacent_introns = defaultdict(set)
 
     def collect_introns(self, read_assignments):
         all_introns = defaultdict(int)
         for assignment in read_assignments:
             if not assignment.corrected_introns or assignment.multimapper:
                 continue
-            for intron in assignment.corrected_introns:
+            for i, intron in enumerate(assignment.corrected_introns):
                 all_introns[intron] += 1
+                if i > 0:
+                    self.adjacent_introns[intron].add(assignment.corrected_introns[i - 1])
+                    self.adjacent_introns[assignment.corrected_introns[i - 1]].add(intron)
         return all_introns
+
+    # substitute intron must not overlap introns that are adjacent to the substituted one in a read,
+    # otherwise the exon between them vanishes
+    def can_substitute(self, intron, substitute_intron):
+        return all(adjacent_intron[1] + 1 < substitute_intron[0] or substitute_intron[1] + 1 < adjacent_intron[0]
+                   for adjacent_intron in self.adjacent_introns[intron])
 
     def construct_similar_intron_map(self, all_introns):
         ordered_introns = sorted(all_introns.keys())
@@ -72,7 +83,7 @@ class IntronCollector:
                 # intron has a similar intron
                 similar_introns = []
                 for similar_intron in similar_intron_map[intron]:
-                    if similar_intron in self.clustered_introns:
+                    if similar_intron in self.clustered_introns and self.can_substitute(intron, similar_intron):
                         # if similar intron was already added to the cluster with the higher count
                         similar_introns.append((count, similar_intron))
 
